@@ -6,7 +6,8 @@ ID = 'C05'
 LEAN_MODULES = ['TboxModel.C05.Props']
 EXE = 'c05'
 MODE = 'trace'
-THEOREMS = ['Tbox.C05.C05_execute_appends', 'Tbox.C05.C05_accounted', 'Tbox.C05.C05_final_accounting', 'Tbox.C05.C05_cleanup_joins_all',
+THEOREMS = ['Tbox.C05.C05_waiting_at_cleanup_never_runs', 'Tbox.C05.C05_cancel_running_noop', 'Tbox.C05.C05_execute_after_cleanup',
+            'Tbox.C05.C05_workthread_instance', 'Tbox.C05.C05_execute_appends', 'Tbox.C05.C05_accounted', 'Tbox.C05.C05_final_accounting', 'Tbox.C05.C05_cleanup_joins_all',
             'Tbox.C05.C05_no_lost_wakeup', 'Tbox.C05.C05_no_stranded_task', 'Tbox.C05.C05_cleanup_joins_all_counterexample',
             'Tbox.C05.C05_no_stranded_task_counterexample',
             'Tbox.C05.C05_exactly_once', 'Tbox.C05.C05_worker_only', 'Tbox.C05.C05_callback_once',
@@ -156,6 +157,11 @@ def gen_case(rng, tier):
         if rng.random() < 0.5:
             ops.append('drain')
             for _ in range(rng.choice([0, 2])): probe()
+    if (kind == 'pool' and shape >= 0.96) or (kind == 'wt' and rng.random() < 0.3):
+        gmn, gmx = (mn, mx) if (mx > 0 and mn <= mx) else (1, 2)
+        return gen_gate(rng, kind, gmn, min(gmx, 4), rng.choice(['cleanup', 'destroy']))
+    if rng.random() < 0.1:
+        ops.append('destroy'); ops.append('fin'); return ops
     if rng.random() < 0.93: ops.append('cleanup')
     for _ in range(rng.choice([0, 0, 1, 3])):
         q = rng.random()
@@ -164,6 +170,30 @@ def gen_case(rng, tier):
         elif q < 0.8: ops.append('exec 0 1 0')
         elif kind == 'pool': ops.append('snap')
     if 'cleanup' not in ops[-5:] and 'cleanup' not in ops: ops.append('cleanup')
+    ops.append('fin')
+    return ops
+
+
+def gen_gate(rng, kind, mn, mx, how):
+    """worker(s) held busy by long gate task(s), a backlog queued behind them, then cleanup() / the destructor:
+    every task still waiting at that moment must never run.  Also: status of the backlog (waiting) and of the gate
+    (executing), cancel of a waiting task (0) and of the running gate (2), API calls after cleanup."""
+    ops = ['cfg %s %d %d %d %d' % (kind, mn, mx, rng.randrange(1 << 30), rng.choice([0, 0, 150, 300]))]
+    ng = 1 if kind == 'wt' else mx
+    for _ in range(ng): ops.append('exec 0 %d %d' % (rng.randrange(2), rng.choice([12000, 15000, 20000])))
+    nb = rng.choice([1, 2, 3, 5, 8])
+    for _ in range(nb): ops.append('exec %d %d %d' % (rng.choice([-1, 0, 0, 1]), rng.randrange(2), rng.choice([0, 0, 300])))
+    tot = ng + nb
+    for _ in range(rng.choice([0, 1, 3])): ops.append('stat %d' % rng.randrange(tot))
+    if rng.random() < 0.5: ops.append('cancel %d' % rng.randrange(ng, tot))      # a waiting task
+    if rng.random() < 0.4: ops.append('cancel %d' % rng.randrange(ng))           # a running gate
+    if rng.random() < 0.3: ops.append('hammer 500')
+    ops.append(how)
+    if how == 'cleanup':
+        for _ in range(rng.choice([0, 2, 3])):
+            ops.append(rng.choice(['stat %d' % rng.randrange(tot), 'cancel %d' % rng.randrange(tot), 'exec 0 1 0']))
+    else:
+        ops.append(rng.choice(['stat 0', 'exec 0 0 0', 'cleanup']))                # the object is gone: bad-op on both sides
     ops.append('fin')
     return ops
 
@@ -187,6 +217,14 @@ def gen(rng, tier):
     yield ['cfg pool 1 3 18 300', 'settle', 'exec 0 0 300', 'settle', 'exec 0 0 300', 'exec 0 0 300', 'exec 0 0 300', 'settle', 'snap',
            'exec 0 1 100', 'settle', 'cleanup', 'fin']
     yield ['cfg pool 0 3 19 900', 'exec 0 0 100', 'exec 0 0 100', 'exec 0 0 100', 'drain', 'sleep 8000', 'cleanup', 'fin']
+    # gate + backlog + cleanup / destructor, WorkThread and pools (directed family)
+    for kind, mn, mx in (('wt', 0, 0), ('pool', 1, 1), ('pool', 2, 2), ('pool', 0, 2), ('wt', 0, 0), ('pool', 1, 3)):
+        for how in ('cleanup', 'destroy'):
+            yield gen_gate(rng, kind, mn, mx, how)
+    yield ['cfg wt 0 0 41 0', 'exec 0 1 15000', 'exec 0 1 0', 'exec 0 0 0', 'stat 1', 'stat 0', 'cancel 2', 'cancel 0', 'cleanup', 'stat 1', 'cancel 1',
+           'exec 0 0 0', 'fin']
+    yield ['cfg wt 0 0 42 0', 'exec 0 0 15000', 'exec 0 1 0', 'exec 0 1 0', 'destroy', 'stat 0', 'fin']
+    yield ['cfg wt 0 0 43 600', 'exec 0 1 0', 'exec 0 1 0', 'exec 0 0 0', 'hammer 3000', 'destroy', 'fin']
     # deterministic: (1,1) pool, a 20 ms gate task whose body submits two same-priority tasks and one of higher priority
     # after its sleep; meanwhile the loop thread queues A, B behind the gate.  Order is fully determined:
     # gate, nested(-1), A, B, nested#1, nested#2.
@@ -216,14 +254,14 @@ def nontrivial(ops, model_lines):
     tags = ' '.join(l for l in model_lines if l.startswith('B ')).split()
     if 'ran' not in tags: return None
     return 1 if any(t in tags for t in ('stat-w', 'stat-e', 'cancel-0', 'cancel-2', 'multi-worker', 'order-checked', 'spawn-checked-0',
-                                       'spawn-checked-1', 'exit-rule-checked', 'offloop', 'nested-exec', 'worker-query', 'worker-cancel')) else None
+                                       'spawn-checked-1', 'exit-rule-checked', 'offloop', 'nested-exec', 'worker-query', 'worker-cancel', 'cleanup-cs')) else None
 
 
 def fingerprint(ops, d):
     if not d: return 'schedule-dependent-not-reproduced'
     txt = d[1] or ''
     if 'output ends' in txt: return 'crash-or-sanitizer-report'
-    for key, fp in (('not joined', 'cleanup-unjoined-worker'), ('had not finished', 'cleanup-unjoined-worker'),
+    for key, fp in (('still waiting when cleanup', 'ran-after-cleanup-began'), ('not joined', 'cleanup-unjoined-worker'), ('had not finished', 'cleanup-unjoined-worker'),
                     ('drain:', 'task-never-executed'), ('settle:', 'task-never-executed'), ('DEADLOCK', 'cleanup-deadlock'), ('NOT FOUND', 'status-not-found-then-runs'), ('cancellable', 'waiting-after-start'),
                     ('tsan', 'tsan-data-race'), ('signal6', 'abort'), ('signal11', 'segv'), ('pick order', 'pick-order'),
                     ('more than once', 'twice'), ('exceed the maximum', 'max-workers'), ('timeout', 'cleanup-deadlock'),
